@@ -120,17 +120,29 @@ def run_shared(tier, seed, key):
         clu = os.path.join(V.BUILD, "bin", "cluster")
         for sh in range(NSHARDS):
             cmd = "%s gen %s %s %d %d %s/mon_%d.txt | %s trace > %s/drv_%d.txt" % (clu, tier, seed, sh, NSHARDS, d, sh, drv, d, sh)
-            procs.append(subprocess.Popen(["/bin/bash", "-c", "set -o pipefail; " + cmd], env=V.GOENV, stdout=subprocess.PIPE, stderr=subprocess.STDOUT))
+            procs.append(subprocess.Popen(["/bin/bash", "-c", "set -o pipefail; " + cmd], env=V.GOENV, stdout=subprocess.PIPE, stderr=subprocess.STDOUT, start_new_session=True))
         # corpus: known findings and directed scenarios, replayed first on every run
         cdir = os.path.join(V.ROOT, "corpus")
         if os.path.isdir(cdir):
             for i, fn in enumerate(sorted(os.listdir(cdir))):
                 if fn.endswith(".sched"):
                     cmd = "%s replay %s/%s %s/mon_c%d.txt | %s trace > %s/drv_c%d.txt" % (clu, cdir, fn, d, i, drv, d, i)
-                    procs.append(subprocess.Popen(["/bin/bash", "-c", "set -o pipefail; " + cmd], env=V.GOENV, stdout=subprocess.PIPE, stderr=subprocess.STDOUT))
+                    procs.append(subprocess.Popen(["/bin/bash", "-c", "set -o pipefail; " + cmd], env=V.GOENV, stdout=subprocess.PIPE, stderr=subprocess.STDOUT, start_new_session=True))
         errs = []
+        # a modified tree must not hang the check: the schedules have their own budget, this is the backstop
+        deadline = time.time() + (1500 if tier == "quick" else 10800)
         for p in procs:
-            out, _ = p.communicate(timeout=7200)
+            try:
+                out, _ = p.communicate(timeout=max(1, deadline - time.time()))
+            except subprocess.TimeoutExpired:
+                import signal
+                try:
+                    os.killpg(os.getpgid(p.pid), signal.SIGKILL)
+                except Exception:
+                    p.kill()
+                out, _ = p.communicate()
+                errs.append("shard timed out: " + out.decode("utf-8", "replace")[-500:])
+                continue
             if p.returncode != 0:
                 errs.append(out.decode("utf-8", "replace")[-1500:])
         with open(os.path.join(d, "ERRORS"), "w") as f:
